@@ -14,6 +14,7 @@ import (
 	"github.com/formancehq/go-libs/v5/pkg/storage/bun/paginate"
 
 	ledger "github.com/formancehq/ledger/internal"
+	ledgercontroller "github.com/formancehq/ledger/internal/controller/ledger"
 	"github.com/formancehq/ledger/internal/storage/common"
 	"github.com/formancehq/ledger/pkg/features"
 	"github.com/formancehq/ledger/verifharness/env"
@@ -141,6 +142,12 @@ func TestC06(t *testing.T) {
 		demand := map[string]int64{}
 		var descs []string
 		s := NewSched(w)
+		// in one run out of two, one writer's k-th statement is the victim of a deadlock: its request goes
+		// through the controller's retry path while the others keep running
+		if rapid.Bool().Draw(rt, "injectDeadlock") {
+			s.FaultWriter = rapid.IntRange(0, nw-1).Draw(rt, "deadlockVictim")
+			s.FaultAt = rapid.IntRange(1, 10).Draw(rt, "deadlockAtStatement")
+		}
 		for i := 0; i < nw; i++ {
 			i := i
 			c, err := w.Env.Ledger(w.Ctx, l.Name)
@@ -277,10 +284,20 @@ type ctrlOf = interface {
 type liveCtrl struct {
 	w *World
 	l *LState
+	// pre, when set, is a controller chain obtained before the writers started (a request that read the
+	// ledger row earlier than the others); otherwise the chain is obtained when the writer starts
+	pre ledgercontroller.Controller
+}
+
+func (lc liveCtrl) open() (ledgercontroller.Controller, error) {
+	if lc.pre != nil {
+		return lc.pre, nil
+	}
+	return lc.w.Env.Ledger(lc.w.Ctx, lc.l.Name)
 }
 
 func (lc liveCtrl) createTx(r TxRequest) concOutcome {
-	c, err := lc.w.Env.Ledger(lc.w.Ctx, lc.l.Name)
+	c, err := lc.open()
 	if err != nil {
 		return concOutcome{Kind: ErrOther, Err: err}
 	}
@@ -293,7 +310,7 @@ func (lc liveCtrl) createTx(r TxRequest) concOutcome {
 }
 
 func (lc liveCtrl) revert(r RevertRequest) concOutcome {
-	c, err := lc.w.Env.Ledger(lc.w.Ctx, lc.l.Name)
+	c, err := lc.open()
 	if err != nil {
 		return concOutcome{Kind: ErrOther, Err: err}
 	}
@@ -311,7 +328,15 @@ func (w *World) runWriters(rt *rapid.T, l *LState, ws []concWriter) ([]concOutco
 	s := NewSched(w)
 	for i, cw := range ws {
 		i, cw := i, cw
-		s.Go(fmt.Sprintf("w%d", i), func() { outs[i] = cw.Run(liveCtrl{w, l}) })
+		lc := liveCtrl{w: w, l: l}
+		if w.PreOpen > 0 && i < w.PreOpen {
+			c, err := w.Env.Ledger(w.Ctx, l.Name)
+			if err != nil {
+				w.harness("%v", err)
+			}
+			lc.pre = c
+		}
+		s.Go(fmt.Sprintf("w%d", i), func() { outs[i] = cw.Run(lc) })
 	}
 	ok := s.Run(rt)
 	for _, o := range outs {
@@ -388,7 +413,7 @@ func TestC13(t *testing.T) {
 			}
 		} else {
 			for _, cw := range ws {
-				outs = append(outs, cw.Run(liveCtrl{w, l}))
+				outs = append(outs, cw.Run(liveCtrl{w: w, l: l}))
 			}
 			s = &Sched{}
 		}
@@ -469,10 +494,16 @@ func runConcurrentMix(t *testing.T, id string, fs func(*rapid.T) features.Featur
 		}
 		ws := mix(rt, w, l)
 		if fresh {
-			// a few more first writers, all drawing on world so that they do write
-			for i, k := 0, rapid.IntRange(1, 2).Draw(rt, "extraFirstWriters"); i < k; i++ {
-				r := TxRequest{Postings: ledger.Postings{ledger.NewPosting("world", rapid.SampledFrom([]string{"u:1", "u:2", "a:b"}).Draw(rt, "dst"), "USD/2", big.NewInt(int64(rapid.IntRange(1, 9).Draw(rt, "amt"))))}}
+			// some of the first writers have read the ledger row (state 'initializing') before anybody wrote
+			w.PreOpen = rapid.IntRange(0, 3).Draw(rt, "openedBeforeTheFirstWrite")
+			// a few more first writers, all drawing on world so that they do write, each on an asset and a
+			// destination of its own: nothing but the ledger-level locks serialises them
+			for i, k := 0, rapid.IntRange(1, 4).Draw(rt, "extraFirstWriters"); i < k; i++ {
+				r := TxRequest{Postings: ledger.Postings{ledger.NewPosting("world", fmt.Sprintf("p:%d", i), fmt.Sprintf("A%d", i), big.NewInt(int64(rapid.IntRange(1, 9).Draw(rt, "amt"))))}}
 				ws = append(ws, concWriter{Desc: "create " + r.describe(), Run: func(c ctrlOf) concOutcome { return c.createTx(r) }})
+			}
+			if rapid.Bool().Draw(rt, "onlyDisjointWriters") {
+				ws = ws[len(ws)-min(len(ws), 4):]
 			}
 		}
 		outs, s, ok := w.runWriters(rt, l, ws)
@@ -596,7 +627,7 @@ func reproduceCommitOrder() bool {
 		i, pair := i, pair
 		s.Go(fmt.Sprintf("w%d", i), func() {
 			// disjoint accounts: nothing in the database serialises the two writers
-			outs[i] = liveCtrl{w, l}.createTx(TxRequest{Postings: ledger.Postings{ledger.NewPosting(pair[0], pair[1], "USD/2", big.NewInt(1))}, Force: true})
+			outs[i] = liveCtrl{w: w, l: l}.createTx(TxRequest{Postings: ledger.Postings{ledger.NewPosting(pair[0], pair[1], "USD/2", big.NewInt(1))}, Force: true})
 		})
 	}
 	phase := 0
@@ -952,4 +983,67 @@ func TestC13Kinds(t *testing.T) {
 		}, "kind:"+base.Kind, fmt.Sprintf("concurrent:%v", concurrent), fmt.Sprintf("winner:%v", winner >= 0))
 		st.Add("completed_checks", 1)
 	})
+}
+
+// ------------------------------------------------------- first-write races on a fresh ledger (C09, C16)
+
+const ruleFirstWrite = "a ledger nobody has written to ('initializing'): 3-5 writers, each on an asset and a destination of its own (nothing but ledger-level locks serialises them), 1..n-1 of them holding a controller chain opened before the first write (they saw the ledger 'initializing'), the others opening it when they start (possibly after the state moved to 'in-use'); drawn interleavings incl. the preempt-before-COMMIT shape. "
+
+func runFirstWriteRace(t *testing.T, id, rule string, quick, thorough int, oracle func(w *World, l *LState, ws []concWriter, outs []concOutcome, s *Sched)) {
+	st := stats.New(id, "exploration", ruleFirstWrite+rule, assumePgsim, assumeSched)
+	defer st.Write(t)
+	n := stats.N(quick, thorough)
+	st.Set("requested_checks", n)
+	stats.Check(t, n, 909, func(rt *rapid.T) {
+		w := NewWorld(rt, st, env.Options{}, id)
+		defer w.Close()
+		l := w.AddLedger("l1", "b1", features.DefaultFeatures)
+		nw := rapid.IntRange(3, 5).Draw(rt, "writers")
+		var ws []concWriter
+		for i := 0; i < nw; i++ {
+			r := TxRequest{Postings: ledger.Postings{ledger.NewPosting("world", fmt.Sprintf("p:%d", i), fmt.Sprintf("A%d", i), big.NewInt(int64(i+1)))}}
+			ws = append(ws, concWriter{Desc: "create " + r.describe(), Run: func(c ctrlOf) concOutcome { return c.createTx(r) }})
+		}
+		w.PreOpen = rapid.IntRange(1, nw-1).Draw(rt, "openedBeforeTheFirstWrite")
+		outs, s, ok := w.runWriters(rt, l, ws)
+		if !ok {
+			return
+		}
+		for i, o := range outs {
+			if o.Err != nil {
+				w.V(id, "first writer %d failed: %v\n%s\nschedule:\n  %s", i, o.Err, describeOuts(ws, outs), strings.Join(s.Trace, "\n  "))
+			}
+		}
+		oracle(w, l, ws, outs, s)
+		st.Case(fmt.Sprint(w.PreOpen)+strings.Join(s.Trace, "|"), s.Switches >= 1, func() any {
+			return map[string]any{"writers": nw, "opened_before_first_write": w.PreOpen, "schedule_len": len(s.Trace), "commit_order": s.CommitOrder()}
+		}, fmt.Sprintf("writers:%d", nw), fmt.Sprintf("preopened:%d", w.PreOpen))
+		st.Add("completed_checks", 1)
+	})
+}
+
+func TestC09FirstWrite(t *testing.T) {
+	runFirstWriteRace(t, "C09", "Every stored hash must chain from its predecessor in id order; non-trivial = >= 1 context switch inside an open transaction; distinct = by schedule", 600, 1500,
+		func(w *World, l *LState, ws []concWriter, outs []concOutcome, s *Sched) {
+			w.checkHashChain(l, strings.Join(s.Trace, "\n  "))
+		})
+}
+
+func TestC16FirstWrite(t *testing.T) {
+	runFirstWriteRace(t, "C16", "No writer may fail, and no transaction or log id may be handed out twice; non-trivial = >= 1 context switch inside an open transaction; distinct = by schedule", 600, 1500,
+		func(w *World, l *LState, ws []concWriter, outs []concOutcome, s *Sched) {
+			seenTx, seenLog := map[uint64]int{}, map[uint64]int{}
+			for i, o := range outs {
+				if o.Err != nil || o.Tx == nil {
+					continue
+				}
+				if j, dup := seenTx[*o.Tx.ID]; dup {
+					w.V("C16", "writers %d and %d both got transaction id %d", j, i, *o.Tx.ID)
+				}
+				if j, dup := seenLog[*o.Log.ID]; dup {
+					w.V("C16", "writers %d and %d both got log id %d", j, i, *o.Log.ID)
+				}
+				seenTx[*o.Tx.ID], seenLog[*o.Log.ID] = i, i
+			}
+		})
 }
